@@ -21,6 +21,7 @@ inductive ApiOp where
   | removeBranch (plbl name : Nat)
   | load (plbl branch obj lbl : Nat)
   | delete (plbl branch : Nat) (objs : List Nat) (lbl : Nat)
+  | compact (plbl branch : Nat) (objs : List Nat) (newObj lbl : Nat)   -- exec.Compact + Branch.CommitCompact
   deriving Repr
 
 structure ApiClient where
@@ -176,6 +177,23 @@ def advance (d : Drv) (c : Nat) (a : ApiClient) (op : ApiOp) : Act × ApiClient 
         | some (.committed _) => (.finish s!"ok commit {lbl}", a)
         | r => (.finishRes (r.getD .io), a)
 
+  | .compact plbl branch objs newObj lbl =>
+    openPoolThen plbl fun a =>
+      match a.pc with
+      | 5 => match (if ok then ((x.cache a.pool 0).table).get branch else none) with
+        | none => (.finish "notfound", a)
+        | some tip =>
+          -- exec.Compact looks the source objects up in the snapshot of the tip it has opened, reads
+          -- them and writes the rollup object (data objects: no model events), then CommitCompact
+          match snapshot d.sys.store a.pool tip with
+          | some snap =>
+            if objs.all fun o => snap.contains o then (.start (.bcommit a.pool 0 branch [newObj] objs) 6, a)
+            else (.finish "builderr", a)
+          | none => (.finish "builderr", a)
+      | _ => match res with
+        | some (.committed _) => (.finish s!"ok commit {lbl}", a)
+        | r => (.finishRes (r.getD .io), a)
+
 /-! ### Rendering -/
 
 def jName (j : Nat) : String := if j = 0 then "pools" else s!"p#{j}"
@@ -206,7 +224,9 @@ def svalStr (j : Nat) : SVal → String
   | .num n => s!"n{n}"
   | .tailv id base => s!"t{id},{base}"
   | .entry acts => if acts.isEmpty then "-" else "+".intercalate (acts.map (actStr j))
-  | .commit par adds dels => s!"par=c#{par};adds={natsStr "o" adds};dels={natsStr "o" dels}"
+  | .commit par adds dels =>
+    let srt (xs : List Nat) : List Nat := (sortTable (xs.map fun x => (x, 0))).map (·.1)
+    s!"par=c#{par};adds={natsStr "o" (srt adds)};dels={natsStr "o" (srt dels)}"
   | .jsnap pos t => s!"s{pos}:" ++ ",".intercalate ((sortTable t).map fun e => s!"k{e.1}={valOf j e.2}")
 
 def evStr (c : Nat) (ev : Ev) : String :=
@@ -272,6 +292,7 @@ def grant (d : Drv) (c : Nat) (stepped : Bool) : Nat → Drv
             | .createPool lbl _, _ => if r.startsWith "ok" then { d with pools := (lbl, a.pool) :: d.pools } else d
             | .load _ _ _ lbl, some (.committed id) => { d with commits := (lbl, id) :: d.commits }
             | .delete _ _ _ lbl, some (.committed id) => { d with commits := (lbl, id) :: d.commits }
+            | .compact _ _ _ _ lbl, some (.committed id) => { d with commits := (lbl, id) :: d.commits }
             | _, _ => d
           grant (fin d a ((r.splitOn " ").headD r)) c stepped fuel
 
@@ -317,6 +338,8 @@ def opOf : Sexp → Option ApiOp
   | .list (.atom "load" :: [a, b, c, d]) => do pure (.load (← natOf a) (← natOf b) (← natOf c) (← natOf d))
   | .list (.atom "delete" :: a :: b :: c :: objs) => do
     pure (.delete (← natOf a) (← natOf b) (← objs.mapM natOf) (← natOf c))
+  | .list (.atom "compact" :: a :: b :: c :: n :: objs) => do
+    pure (.compact (← natOf a) (← natOf b) (← objs.mapM natOf) (← natOf n) (← natOf c))
   | _ => none
 
 def clientOf : Sexp → Option (Nat × List ApiOp)
